@@ -289,7 +289,7 @@ func runC18(c C18Case, ev *vt.Ev) *vt.Failure {
 							continue
 						}
 						op := c18Op(wr, g*10+w)
-						seq.Lock() // version order == acknowledgement order
+						seq.Lock()            // version order == acknowledgement order
 						bad := m.mustFail(op) // under seq: the model is the acknowledged state
 						r := s.Exec(op)
 						if r.OK() && !bad {
